@@ -605,19 +605,24 @@ theorem appendIP6_tie (l : Line) (ip : Bytes) : genLine_appendIP6 (G l) ip = lif
 
 /-- every method of `*fastlog.Line` is a candidate; these are the ones the translator expresses -/
 theorem translated_accounted : fastlogLoopsTranslated.map (·.1) =
-    ["fastlog.(*Line).Bool", "fastlog.(*Line).ByteArray", "fastlog.(*Line).Bytes", "fastlog.(*Line).LF",
-     "fastlog.(*Line).Label", "fastlog.(*Line).MAC", "fastlog.(*Line).String", "fastlog.(*Line).Uint16",
+    ["fastlog.(*Line).Bool", "fastlog.(*Line).ByteArray", "fastlog.(*Line).Bytes", "fastlog.(*Line).Duration",
+     "fastlog.(*Line).Error", "fastlog.(*Line).IP", "fastlog.(*Line).IPArray", "fastlog.(*Line).IPSlice",
+     "fastlog.(*Line).Int", "fastlog.(*Line).LF", "fastlog.(*Line).Label", "fastlog.(*Line).MAC",
+     "fastlog.(*Line).Module", "fastlog.(*Line).String", "fastlog.(*Line).StringArray", "fastlog.(*Line).Uint16",
      "fastlog.(*Line).Uint16Hex", "fastlog.(*Line).Uint32", "fastlog.(*Line).Uint8", "fastlog.(*Line).Uint8Hex",
-     "fastlog.(*Line).appendByte", "fastlog.(*Line).appendIP6", "fastlog.(*Line).printInt",
+     "fastlog.(*Line).appendByte", "fastlog.(*Line).appendIP6", "fastlog.(*Line).newModule", "fastlog.(*Line).printInt",
      "fastlog.(*Line).writeHex", "fastlog.(*Line).writeHexNoleadingZeros"] := by decide
 
-/-- … and these are refused (interface / time / netip / []string / []net.IP parameters, `nil` comparisons, a three-argument
-    `make`, results other than the receiver): they stay tied by the correspondence run only -/
+/-- … and these are refused (interface / time.Time parameters whose text the standard library produces by reflection or
+    formatting, results other than the receiver, the buffer pool): they stay tied by the correspondence run only -/
 theorem untranslated_accounted : fastlogLoopsUntranslated.map (·.1) =
-    ["fastlog.(*Line).Duration", "fastlog.(*Line).Error", "fastlog.(*Line).IP", "fastlog.(*Line).IPArray",
-     "fastlog.(*Line).IPSlice", "fastlog.(*Line).Int", "fastlog.(*Line).Module", "fastlog.(*Line).Sprintf",
-     "fastlog.(*Line).StringArray", "fastlog.(*Line).Stringer", "fastlog.(*Line).Struct", "fastlog.(*Line).Time",
-     "fastlog.(*Line).ToString", "fastlog.(*Line).Write", "fastlog.(*Line).newModule"] := by decide
+    ["fastlog.(*Line).Sprintf", "fastlog.(*Line).Stringer", "fastlog.(*Line).Struct", "fastlog.(*Line).Time",
+     "fastlog.(*Line).ToString", "fastlog.(*Line).Write"] := by decide
+
+/-- the standard-library callees the translator replaced by the model function that mirrors them (reviewed list) -/
+theorem callees_accounted : loopCallees.map (·.1) =
+    ["(error).Error", "(net.IP).To4", "(net/netip.Addr).AppendTo", "(net/netip.Addr).IsValid", "(time.Duration).String",
+     "strconv.AppendInt"] := by decide
 
 /-- non-vacuity: on an empty 2048-byte line the regenerated `Uint16("p", 443)` writes ` p=443` and moves the cursor to 6 -/
 example : (genLine_Uint16 (G ⟨Buf.fill 0, 0⟩) [0x70] 443) =
